@@ -46,6 +46,25 @@ func genC07(rt *rapid.T, st *Stats) *Case {
 	genOptions(rt, c, NodeIDs(c.Edges), OptSpec{CBs: detCB, Lays: allLay, Poss: posFor(n, len(ies), allPos), BKForced: true, Rts: allRt,
 		Thorough: true, ThoroughLow: true, Virt: true, Sizes: 0, NSZero: true, LSZero: true, DefaultsOK: true})
 	avoidK3(rt, c, st, false, []int{RtPolyline, RtStraight, RtOrtho, RtNoop})
+	// near-duplicate inputs for the same process (see NearVar): in a quarter of the cases, half of the spline cases
+	// (the spline router does the most geometry per call). Widths and NodeSpacing stay integers where the
+	// NetworkSimplex positioner needs them for the spline-safe domain.
+	if chance(rt, "near", 1, 4) || (c.Rt == RtSplines && chance(rt, "near_splines", 1, 3)) {
+		ids := NodeIDs(c.Edges)
+		for k := rapid.IntRange(1, 3).Draw(rt, "near_count"); k > 0; k-- {
+			v := NearVar{Kind: pick(rt, "near_kind", 4), Delta: []float64{0.004, 0.001, 0.0049, 1e-6, 1e-9, 0.003}[pick(rt, "near_delta", 6)]}
+			if v.Kind == 3 {
+				v.Kind = 0 // widths twice as often as each spacing
+			}
+			if c.Rt == RtSplines && c.Pos == PosNS && v.Kind != 2 {
+				v.Kind = 2
+			}
+			if v.Kind == 0 {
+				v.Node = ids[pick(rt, "near_node", len(ids))]
+			}
+			c.Near = append(c.Near, v)
+		}
+	}
 	return c
 }
 
@@ -93,6 +112,33 @@ func checkC07(c *Case) *Outcome {
 	}
 	_, _, _, ncomp := structuralClasses(c, o)
 	optionClasses(c, o)
+	// near-duplicate inputs: the first process lays them out AFTER their base case, the sparse twin BEFORE it and in
+	// reverse order; every one is its own entry in the digest log. In-process: each is deterministic by itself.
+	runNear := func(vs []NearVar) *Outcome {
+		for _, v := range vs {
+			vc := c.WithNear(v)
+			r1, perr := vc.Run()
+			if perr != nil {
+				return o.failf("Layout panicked on the near-duplicate input %+v: %v", v, perr)
+			}
+			logDigest(vc, r1)
+			r2, _ := vc.Run()
+			if !reflect.DeepEqual(r1, r2) {
+				return o.failf("near-duplicate input %+v: the second call returned a different layout than the first:\n%s", v, diffLayouts(r1, r2))
+			}
+		}
+		return nil
+	}
+	o.classIf(len(c.Near) > 0, "near_duplicates")
+	if os.Getenv("VERIF_C07_SPARSE") == "1" {
+		rev := append([]NearVar(nil), c.Near...)
+		for i, j := 0, len(rev)-1; i < j; i, j = i+1, j-1 {
+			rev[i], rev[j] = rev[j], rev[i]
+		}
+		if f := runNear(rev); f != nil {
+			return f
+		}
+	}
 	src := c.EdgeSlice()
 	sizes := c.SizeMap()
 	srcSnap := c.EdgeSlice()
@@ -143,6 +189,18 @@ func checkC07(c *Case) *Outcome {
 	for i, f := range opts[:cap(opts)][len(opts):] {
 		if f != nil {
 			return o.failf("Layout wrote into the spare capacity of the caller's option slice (slot %d beyond its length %d)", i, len(opts))
+		}
+	}
+	if os.Getenv("VERIF_C07_SPARSE") != "1" {
+		if f := runNear(c.Near); f != nil {
+			return f
+		}
+		// and the base case once more, after its near-duplicates went through
+		if len(c.Near) > 0 {
+			again, _ := c.RunOpts(src, opts)
+			if !reflect.DeepEqual(first, again) {
+				return o.failf("after %d near-duplicate inputs were laid out, the base case returns a different layout than before:\n%s", len(c.Near), diffLayouts(first, again))
+			}
 		}
 	}
 	rev := 0
@@ -204,9 +262,16 @@ func genC08(rt *rapid.T, st *Stats) *RenameCase {
 	pool := rapid.Permutation(iota_(len(advIDs))).Draw(rt, "pool_order")
 	k := 0
 	wantHelperLike := chance(rt, "helper_like", 4, 5)
+	var composed []string
+	if chance(rt, "composed_names", 1, 4) {
+		composed = composedNames(rt) // token<sep>token names: distinct ID pairs with equal joined forms
+		wantHelperLike = false
+	}
 	for i := 0; i < n; i++ {
 		var name string
 		switch {
+		case i < len(composed):
+			name = composed[i]
 		case wantHelperLike && i < 3 && chance(rt, "hl", 2, 3):
 			if rapid.Bool().Draw(rt, "v_or_ne") {
 				name = fmt.Sprintf("V%d", rapid.IntRange(1, 6).Draw(rt, "vk"))
@@ -399,10 +464,20 @@ func genC09(rt *rapid.T, st *Stats) *UnionCase {
 		bigPart = pick(rt, "which_big", parts)
 		maxN, maxM = 6, 8
 	}
+	// and more rarely one part is a thin giant (genThinGiant: 201..230 nodes here, so that the NetworkSimplex positioner
+	// stays below a second): thresholds on a component's size, wherever it stands among the components
+	giantPart := -1
+	if bigPart < 0 && chance(rt, "giant_part", 1, 150) {
+		giantPart = pick(rt, "which_giant", parts)
+		maxN, maxM = 6, 8
+	}
 	for p := 0; p < parts; p++ {
 		var n int
 		var es []iedge
-		if p == bigPart {
+		if p == giantPart {
+			n = rapid.IntRange(201, 230).Draw(rt, "giant_n")
+			es = genThinGiant(rt, n)
+		} else if p == bigPart {
 			n = rapid.IntRange(33, 44).Draw(rt, "big_n")
 			es = genConnN(rt, n, rapid.IntRange(0, 2).Draw(rt, "big_extra"))
 		} else {
@@ -422,6 +497,9 @@ func genC09(rt *rapid.T, st *Stats) *UnionCase {
 	poss := posFor(total, totalM, allPos)
 	if bigPart >= 0 && total <= 48 && totalM <= total+3 {
 		poss = []int{PosNS, PosNS, PosSink, PosVAlign, PosPackRight, PosBK} // the threshold cases are about the expensive positioner
+	}
+	if giantPart >= 0 {
+		poss = []int{PosNS, PosNS, PosSink, PosVAlign, PosPackRight, PosBK}
 	}
 	genOptions(rt, uc.Opt, NodeIDs(uc.Opt.Edges), OptSpec{CBs: allCB, Lays: allLay, Poss: poss, BKForced: true, Rts: allRt,
 		Thorough: true, Virt: true, Sizes: 0, NSZero: true, LSZero: true, DefaultsOK: true})
@@ -528,6 +606,17 @@ func checkC09(uc *UnionCase) *Outcome {
 				return o.failf("part %d node #%d: alone %+v, in the union %+v (dx=%v)", p, i, a, r, dx)
 			}
 			lo, hi = min(lo, r.X), max(hi, r.X+r.W)
+		}
+		// a component's extent includes its routes: bends sit at the x of helper nodes, and a component is shifted past the
+		// rightmost node of every layer of its predecessor, helper nodes included - whether or not they are output
+		// (seeded/r6-m06 computed the shift from the output nodes only: bends then reach into the next component).
+		// Stated for the piecewise-linear routings, whose points are node centres and helper positions.
+		if whole.Rt == RtPolyline || whole.Rt == RtStraight || whole.Rt == RtOrtho {
+			for _, e := range re {
+				for _, pt := range e.Points {
+					lo, hi = min(lo, pt[0]), max(hi, pt[0])
+				}
+			}
 		}
 		exts[p] = ext{lo, hi}
 		for i := range la.Edges {
